@@ -14,4 +14,6 @@ CONSTANTS
   D = 4
   NameFamily = "collide"
   NameImpl = "prefix"
+  SampleImpl = "ref"
+  ForkImpl = "ref"
 INVARIANT C06_FullCostAllFixed
